@@ -27,6 +27,10 @@ Extractors are registered per property in EXTRACTORS below (properties without a
                                       FenwickTree::get/set, bitenc mask/addr/get_by_addr/set_by_addr, bwt::bwt,
                                       utils::prescan) translated to Lean by tools/rs2lean.py; the equality theorems
                                       with the mirror models (Thm/GenSrc*.lean) are restated in Thm/C08|C18|C04.lean
+  C08 (genpm)    Gen/SrcShiftAndNext.lean, SrcKmpNext.lean, SrcHorspoolNext.lean, SrcBndmNext.lean
+                                      constructors, find_all and Matches::next of ShiftAnd, KMP, Horspool, BNDM (search loops as
+                                      functions on the explicit iterator state); Thm/GenSrc*Next.lean, restated in Thm/C08.lean
+  C09 (genpm)    Gen/SrcHamming.lean  alignment::distance::hamming; Thm/GenSrcHamming.lean, restated in Thm/C09.lean
 
 RbV/Thm/C01.lean and RbV/Thm/C02.lean import RbV.Thm.GenLimits / RbV.Thm.GenTbCodes and restate their theorems as
 property theorems, and the C01/C02 spec/reference files (`Spec/Align.lean` `minScore`, `Ref/Banded.lean` `maxCells`) are
